@@ -137,6 +137,9 @@ pub fn run(ctx: &mut Ctx) {
     });
     ctx.require(&r, &["accepted", "rejected"]);
 
+    // hidden state: every ordered pair of compile / format calls on a fresh thread against the lone call
+    crate::histpairs::pairwise(ctx, "C19", "compile_and_format", crate::histpairs::calls_format());
+
     // blank runs of every length
     let maxb: usize = 600;
     ctx.bound("blank_runs", json!(format!("every length 1..={maxb}, alone and between two tokens")));
